@@ -58,8 +58,10 @@ def native_replay(repo: str, cname: str, model: dict[str, Any]) -> dict[str, Any
     env["PYTHONDONTWRITEBYTECODE"] = "1"
     payload = json.dumps({"contract": cname, "model": model})
     try:
-        proc = subprocess.run([VENV_PY, "-m", "pyvc.native_replay"], input=payload, cwd=VERIF, env=env,
-                              capture_output=True, text=True, timeout=120, check=False)
+        # in a scratch directory: a replayed function may write relative paths
+        with tempfile.TemporaryDirectory(prefix="verif-replay-") as scratch:
+            proc = subprocess.run([VENV_PY, "-m", "pyvc.native_replay"], input=payload, cwd=scratch, env=env,
+                                  capture_output=True, text=True, timeout=120, check=False)
     except subprocess.TimeoutExpired:
         return {"status": "error", "detail": "native replay timed out"}
     try:
